@@ -86,8 +86,8 @@ class HeapMaintenance(Harness):
                  "for K = 3 limit orders, K = 4 limit orders with one cancel or tick; then a sweeping counter "
                  "order (limit with symbolic price, or market)",
         "thorough": "K <= 4 with up to 2 ops, all kind mixes for K <= 3, plus K = 5,6,7 limit orders of volume 1 "
-                    "with one op (cancel of any order, or a one-lot counter order + round) before a limit sweep for K lots "
-                    "at a solver-chosen price",
+                    "with one op (cancel of any order, or a one-lot counter order + round; for K = 7 the cancels on the sell "
+                    "side and the partial round on the buy side) before a limit sweep for K lots at a solver-chosen price",
     }
     reach = ("nontrivial", "cancel-nonbest", "expired-some")
     agreement_runs = 16
@@ -114,7 +114,11 @@ class HeapMaintenance(Harness):
                                         "deep": False, "sweep_market": sm})
             if tier == "thorough":
                 for K in (5, 6, 7):
-                    for op in [["C", i] for i in range(K)] + ["R"]:
+                    ops = [["C", i] for i in range(K)] + ["R"]
+                    if K == 7:
+                        # 7 resting orders: ~40k paths per case; sells take the cancels, buys the partial round
+                        ops = ["R"] if is_buy else [["C", i] for i in range(K)]
+                    for op in ops:
                         out.append({"is_buy": is_buy, "K": K, "kinds": "0" * K, "ops": [op], "deep": True,
                                     "sweep_market": False})
         return out
